@@ -5,7 +5,10 @@
    the journal loop (rules join the list in file order; every transaction is finalized, then
    extended).  extend_pure / extend_all_pure / process_pure are the same functions without the
    quick matcher and its memo (memo_transparent shows they are equal).
-   contribution cp st r payee ps = for every non-generated posting of ps matching r's predicate,
+   rule_made p = ITEM_GENERATED without POST_CALCULATED: a posting an automated transaction made
+   (the postings finalize makes for the further commodities of an elided amount carry both flags
+   and are matched like written ones, /repo e69e5ce).  not_generated x = negb (rule_made (x_post x)).
+   contribution cp st r payee ps = for every not-rule-made posting of ps matching r's predicate,
    in order, one posting per line of r (inst_post: the line's account and kind, the multiplied
    or fixed amount, flagged generated).  cp = the pool's display precision; ord = the
    unspecified hash-table insertion order of balances. *)
@@ -32,12 +35,12 @@ Proof. exact extend_all_spec. Qed.
 Print Assumptions no_rematch.
 
 Theorem generated_postings_are_flagged : forall cp st r payee ps x,
-  In x (contribution cp st r payee ps) -> p_generated (x_post x) = true.
+  In x (contribution cp st r payee ps) -> rule_made (x_post x) = true.
 Proof. exact contribution_generated. Qed.
 Print Assumptions generated_postings_are_flagged.
 
 Theorem generated_postings_never_candidates : forall r payee ps new,
-  (forall x, In x new -> p_generated (x_post x) = true) ->
+  (forall x, In x new -> rule_made (x_post x) = true) ->
   candidates r payee (ps ++ new) = candidates r payee ps.
 Proof. exact candidates_app_generated. Qed.
 Print Assumptions generated_postings_never_candidates.
@@ -75,7 +78,7 @@ Print Assumptions no_rule_before_means_untouched.
 
 (* a rule none of whose non-generated postings match leaves the transaction alone *)
 Theorem non_matching_untouched : forall ord cp r payee st ps,
-  (forall x, In x ps -> p_generated (x_post x) = false -> pred_eval payee (x_post x) (r_pred r) = Ok false) ->
+  (forall x, In x ps -> rule_made (x_post x) = false -> pred_eval payee (x_post x) (r_pred r) = Ok false) ->
   extend_pure ord cp r payee st ps = Ok ps.
 Proof. exact no_match_untouched. Qed.
 Print Assumptions non_matching_untouched.
@@ -86,14 +89,14 @@ Theorem multiplier_exact : forall cp st ip l x ra ia,
   instantiate cp st ip l = Ok x -> rl_amt l = Some ra -> acomm ra = None -> p_amt ip = Some ia ->
   exists a, p_amt (x_post x) = Some a /\ aq a == aq ia * aq ra /\ acomm a = acomm ia /\ akeep a = akeep ia /\
             p_acct (x_post x) = rl_acct l /\ p_kind (x_post x) = rl_kind l /\
-            p_generated (x_post x) = true /\ p_cost (x_post x) = None.
+            rule_made (x_post x) = true /\ p_cost (x_post x) = None.
 Proof. exact AutoXactProofs.multiplier_exact. Qed.
 Print Assumptions multiplier_exact.
 
 Theorem fixed_amount_as_written : forall cp st ip l x ra c,
   instantiate cp st ip l = Ok x -> rl_amt l = Some ra -> acomm ra = Some c ->
   p_amt (x_post x) = Some ra /\ p_acct (x_post x) = rl_acct l /\ p_kind (x_post x) = rl_kind l /\
-  p_generated (x_post x) = true.
+  rule_made (x_post x) = true.
 Proof. exact fixed_as_written. Qed.
 Print Assumptions fixed_amount_as_written.
 
@@ -192,33 +195,38 @@ Example extension_example :
   process false [] [] [DRule bad; DTxn t] = [Err EUnbalanced].
 Proof. cbv zeta. repeat split; vm_compute; reflexivity. Qed.
 
-(* FINDING (known_findings.txt F33).  The full statement - EVERY posting of the transaction that
-   matches and was not made by a rule receives the rule's postings - is false of the faithful
-   model: when an elided amount stands for several commodities, finalize (xact.cc:143-153) creates
-   the second and later postings with ITEM_GENERATED, and extend_xact skips them like rule output.
-   Witness: `= /C/  (B) 1` before `F $10.00 / F 5.00 EUR / C` : C receives $-10.00 and -5.00 EUR,
-   (B) receives $-10.00 only.  Writing the two amounts of C out gives (B) both. *)
-Theorem elided_commodity_postings_extended_refuted :
-  exists r t ps xs x,
-    let cp := cp_of (learn_posts [] (t_posts t)) in
+(* the full statement for a journal: EVERY posting of the finalized transaction - written, or
+   made by finalize from an elided amount standing for several commodities - that matches a rule
+   written before it receives one posting per rule line.  (F33, repaired by /repo e69e5ce: the
+   old code skipped every ITEM_GENERATED posting, so `= /C/ (B) 1` before
+   `F $10.00 / F 5.00 EUR / C` gave (B) $-10.00 only.) *)
+Theorem journal_extension_every_posting : forall ord pl ds1 t ds2 xs,
+  let cp := cp_of (learn_posts (pool_after pl ds1) (t_posts t)) in
+  (forall p, In p (t_posts t) -> p_generated p = false) ->
+  nth_error (process ord pl [] (ds1 ++ DTxn t :: ds2)) (length (process ord pl [] ds1)) = Some (Ok (XAccepted xs)) ->
+  exists ps, finalize ord cp None (t_posts t) = Ok (Accepted ps) /\
     let base := lift (t_state t) (map (annotate_cost cp) ps) in
-    finalize false cp None (t_posts t) = Ok (Accepted ps) /\
-    process false [] [] [DRule r; DTxn t] = [Ok (XAccepted xs)] /\
-    In x base /\ matchesb r (t_payee t) x = true /\
-    xs <> base ++ flat_map (fun y => map (inst_post cp (t_state t) (x_post y)) (r_lines r))
-                           (filter (matchesb r (t_payee t)) base).
-Proof.
-  pose (usd := Some [36%Z]). pose (eur := Some [69; 85; 82]%Z).
-  pose (r := mkRule (PAcct [67%Z]) [mkLine [66%Z] PVirtual (Some (mkAmt 1 0%Z false None)) SUncleared]).
-  pose (t := mkTxn [120; 49]%Z SUncleared
-                   [mkPost [70%Z] PReal (Some (mkAmt 10 2%Z false usd)) None None false false false;
-                    mkPost [70%Z] PReal (Some (mkAmt 5 2%Z false eur)) None None false false false;
-                    mkPost [67%Z] PReal None None None false false false]).
-  exists r, t.
-  eexists. eexists.
-  exists (mkX (mkPost [67%Z] PReal (Some (mkAmt (-5) 2%Z false eur)) None None true true false) SUncleared).
-  cbv zeta. split; [vm_compute; reflexivity|]. split; [vm_compute; reflexivity|].
-  split; [vm_compute; tauto|]. split; [vm_compute; reflexivity|].
-  intros H. apply (f_equal (@length xpost)) in H. vm_compute in H. discriminate.
-Qed.
-Print Assumptions elided_commodity_postings_extended_refuted.
+    xs = base ++ flat_map (fun r => flat_map (fun x => map (inst_post cp (t_state t) (x_post x)) (r_lines r))
+                                             (filter (matchesb r (t_payee t)) base)) (rules_in ds1).
+Proof. exact AutoXactProofs.journal_extension_every_posting. Qed.
+Print Assumptions journal_extension_every_posting.
+
+(* nothing finalize returns is taken for a rule's posting *)
+Theorem finalized_postings_are_the_users : forall ord cp bucket ps out,
+  (forall p, In p ps -> p_generated p = false) ->
+  finalize ord cp bucket ps = Ok (Accepted out) -> Forall (fun p => rule_made p = false) out.
+Proof. exact finalize_user_made. Qed.
+Print Assumptions finalized_postings_are_the_users.
+
+(* the former witness now behaves like the written-out transaction: (B) receives both amounts *)
+Example elided_two_commodities_both_matched :
+  let usd := Some [36%Z] in let eur := Some [69; 85; 82]%Z in
+  let r := mkRule (PAcct [67%Z]) [mkLine [66%Z] PVirtual (Some (mkAmt 1 0%Z false None)) SUncleared] in
+  let t := mkTxn [120; 49]%Z SUncleared
+                 [mkPost [70%Z] PReal (Some (mkAmt 10 2%Z false usd)) None None false false false;
+                  mkPost [70%Z] PReal (Some (mkAmt 5 2%Z false eur)) None None false false false;
+                  mkPost [67%Z] PReal None None None false false false] in
+  let gen c (q : Q) := mkX (mkPost [66%Z] PVirtual (Some (mkAmt q 2%Z false c)) None None false true false) SUncleared in
+  exists base, process false [] [] [DRule r; DTxn t] = [Ok (XAccepted (base ++ [gen usd (-10); gen eur (-5)]))] /\
+               length base = 4%nat.
+Proof. cbv zeta. eexists (_ :: _ :: _ :: _ :: nil). split; vm_compute; reflexivity. Qed.
